@@ -53,14 +53,15 @@ KINDS = {
 
 def plan(tier, seed):
     if tier == "quick":
-        return [("C04", seed, 1500, [])]
+        return [("C04", seed, 1500, []), ("C04w", seed, 400, [])]
     p = [("C04", seed + k, 20000, []) for k in range(10)]
+    p += [("C04w", seed + k, 5000, []) for k in range(4)]
     p += [("C04x", seed, 0, ["5", str(k), "8"]) for k in range(8)]
     return p
 
 
 def search_plan(seed):
-    return [("C04", seed + 100 + k, 3000, []) for k in range(3)]
+    return [("C04", seed + 100 + k, 3000, []) for k in range(3)] + [("C04w", seed + 100, 2000, [])]
 
 
 def _unesc(s):
@@ -100,6 +101,16 @@ def distribution(cases):
          "diagnostic": {}}
     for c in cases:
         d["ops"][c.op] = d["ops"].get(c.op, 0) + 1
+        if c.op == "C04.write":
+            w = d.setdefault("write", {"printed": 0, "empty": 0, "failed": 0, "class": {}, "assertions": 0})
+            cfg = dict(kv.split("=", 1) for kv in c.input.split(" | ", 1)[0].split())
+            w["class"][cfg["cls"]] = w["class"].get(cfg["cls"], 0) + 1
+            if c.observed.startswith("OK "):
+                w["printed" if len(c.observed) > 3 else "empty"] += 1
+                w["assertions"] += c.observed.count(" balance")
+            else:
+                w["failed"] += 1
+            continue
         if c.op != "C04.check":
             continue
         cfg = dict(kv.split("=", 1) for kv in c.input.split(" | ", 1)[0].split())
